@@ -180,7 +180,7 @@ class Result:
 def sanitizer_env(flavor, logbase=None):
     env = dict(os.environ)
     env["ASAN_OPTIONS"] = "abort_on_error=1:detect_leaks=1:allocator_may_return_null=1:handle_abort=0:detect_stack_use_after_return=0:malloc_context_size=12"
-    env["UBSAN_OPTIONS"] = "print_stacktrace=1:halt_on_error=1"
+    env["UBSAN_OPTIONS"] = "print_stacktrace=1:halt_on_error=1:abort_on_error=1"
     env["LSAN_OPTIONS"] = "exitcode=23"
     env["TSAN_OPTIONS"] = "halt_on_error=0:exitcode=66:second_deadlock_stack=1:history_size=4"
     return env
